@@ -43,7 +43,7 @@ CHECKS = {
     "C01": simlib("C01", LRULE % "C01 stream (0-6 structurally generated valid messages of every type/field/nesting shape and both byte orders, targeted shapes, optionally one single-site corruption — structural or byte-level — then more bytes; random max_message_size; arrival chunking, short reads, EINTR, allocation failure inside the loader)",
                   probes=["stream_with_invalid_message", "multi_message_stream", "oom_fired"]),
     "C17": simlib("C17", LRULE % "C17 (up to 8 outstanding calls with timeouts from 0 ms to infinite, observed by notify callback / polling / blocking; cancel, dispatch, read_write_dispatch, loop iterations, clock advances; peer replies in any order, duplicated, with unknown serials, split across writes, never, or closes; serial counter optionally started just below the 32-bit wrap)",
-                  probes=["blocked", "cancelled", "cancel_after_completion", "several_calls", "close_with_several_outstanding", "peer_action_during_block"]),
+                  probes=["blocked", "cancelled", "cancel_after_completion", "several_calls", "close_with_several_outstanding", "peer_action_during_block", "thread_mode_runs", "thread_waited_for_lock", "thread_waited_on_condition", "blocked_on_another_threads_call"]),
     "C20": simlib("C20", LRULE % "C20 (histories of register / register-fallback / unregister over path sets with shared prefixes, adjacent sibling names and the root, mixed with method calls, signals, Introspect and Peer.Ping from a scripted peer to paths inside, beside and below the registered ones; handlers that decline, handle, stay silent, ask for memory once, unregister themselves or another path, or register a new path while a message is offered; allocation failures in the API calls and in dispatch)",
                   probes=["offer_with_several_candidates", "unknown_method", "unknown_object", "default_introspect", "register_occupied", "register_nomemory", "handler_need_memory",
                           "redispatch_after_need_memory", "candidate_removed_during_offer", "handler_unregisters_self", "handler_registers_new", "builtin_peer_ping"]),
@@ -168,16 +168,19 @@ MANIFEST_TEXT = {
                     "(short-write / EAGAIN faults on the daemon's sockets, small peer buffers), where a corrupted outgoing stream fails the codec at the receiving actor. Sampling: evidence, not proof."),
     "C17": _mt("Seeded search over schedules of a real DBusConnection (client side, main-loop glue owned by the harness) against a scripted wire peer: up to 8 outstanding calls with "
                "timeouts from 0 ms to infinite, completion observed by notify callback, polling or dbus_pending_call_block(); cancel, unref, dispatch, read_write_dispatch, loop "
-               "iterations with short reads / EINTR / spurious EAGAIN and virtual-clock advances at arbitrary points; the peer replies in any order, twice, with unknown serials, split "
+               "iterations with short reads / EINTR / spurious EAGAIN and virtual-clock advances at arbitrary points, on one thread (main-loop application) or on 2-3 threads (35% of the plans); the peer replies in any order, twice, with unknown serials, split "
                "across writes, never, or closes - also while the application is blocked inside the library (the simulated kernel's poll hands control to the plan's next peer actions). "
                "Oracle per call: completes at most once; a notify function runs exactly once and never for a cancelled call; the stolen reply carries the call's serial and is the FIRST "
                "reply the peer wrote for it, or a locally generated error only once the virtual deadline passed or the connection is gone; bounded liveness: after faults stop, all "
                "peer bytes are delivered and the clock has passed every finite deadline, every call that was not cancelled is complete. Serials: non-zero and pairwise distinct, with "
                "the counter optionally started just below the 32-bit wrap (hook H4).",
-               "DESIGN.md section 4 C17", "deterministic simulation, seeded schedule search (application / peer / clock interleavings), per-call reference model oracle with bounded liveness",
-               note="Trusted base: simulated kernel (stream, poll, clock), independent codec for the peer side, the per-call model. Single-threaded schedules only: the 'several threads' part of the "
-                    "quantifier is not explored (a serialising scheduler over real threads was not built; DESIGN.md says why). One listed known finding (calls outstanding at disconnect are "
-                    "dropped rather than completed) is recognised by its exact condition inside the oracle. Sampling: evidence, not proof."),
+               "DESIGN.md section 4 C17", "deterministic simulation, seeded schedule search (application threads / peer / clock interleavings under a serialising scheduler), per-call reference model oracle with bounded liveness",
+               note="Trusted base: simulated kernel (stream, poll, clock), independent codec for the peer side, the per-call model, and in thread mode the serialising scheduler "
+                    "(sim/sched): 2-3 real application threads using the blocking API on one connection are parked at libdbus' platform mutex / condition-variable functions "
+                    "(link-time seam) and in the simulated poll, and released one at a time by the plan's seeded PRNG; spurious condition wake-ups are injected; the peer is one more "
+                    "scheduled actor. Thread-mode oracles add: no deadlock once the peer has closed and no timeout is pending, and no thread asleep in poll inside "
+                    "dbus_pending_call_block() for a call whose reply the library has already read. One listed known finding (calls outstanding at disconnect are dropped rather than "
+                    "completed) is recognised by its exact condition inside the oracle. Sampling: evidence, not proof."),
     "C20": _mt("Seeded search over histories: the application of a real DBusConnection registers, registers as fallback and unregisters handlers on generated path sets (shared prefixes, "
                "adjacent sibling names, the root) while a scripted peer sends method calls, signals, Introspect and Peer.Ping to paths inside, beside and below them through the simulated "
                "socket (short reads / writes, EINTR); handlers decline, handle, stay silent, ask for memory once, unregister themselves or the handler that would be offered next, or "
